@@ -15,7 +15,22 @@ def kindStr : Kind → String
 def modelKind (id : Nat) : String :=
   (if initiator id == 0 then "client" else "server") ++ " " ++ (if dir id == 0 then "bi" else "uni")
 
+/-- a multi-chunk buffer is its concatenation: `Buf` readers see one byte sequence -/
+def parsePieces (h : String) : Option (List Nat) :=
+  ((h.splitOn ",").mapM (fun p => (parseHex p).bind (fun b => if b.isEmpty then none else some b))).map List.flatten
+
 def handle : List String → String
+  | ["varint", "decm", h] =>
+    match parsePieces h with
+    | none => "bad-op"
+    | some bs =>
+      let m := match decode bs with
+        | .ok v r => s!"ok {v} {toHex r}"
+        | .endOf k => s!"end {k}"
+      let s := match rfcDecode bs with
+        | some (v, r) => s!"ok {v} {toHex r}"
+        | none => "end *"
+      m ++ " ## " ++ s
   | ["varint", "dec", h] =>
     match parseHex h with
     | none => "bad-op"
